@@ -95,9 +95,13 @@ def main():
         dst = os.path.join(VERIF, "seeded", "%s-%s" % (prop, n))
         if ok:
             os.makedirs(dst, exist_ok=True)
-            for fn in ("patch.diff", "demo.c", "notes.txt"):
-                if os.path.exists(os.path.join(src, fn)):
+            for fn in os.listdir(src):
+                if fn.endswith((".diff", ".c", ".h", ".txt", ".sh", ".vnacal", ".s2p", ".ts", ".npd")) and os.path.isfile(os.path.join(src, fn)):
                     shutil.copy(os.path.join(src, fn), dst)
+            up = os.path.dirname(src)
+            for fn in os.listdir(up):
+                if fn.endswith((".h", ".sh")) and os.path.isfile(os.path.join(up, fn)):
+                    shutil.copy(os.path.join(up, fn), dst)
             meta["breaks_property"] = prop
             meta["needs_to_manifest"] = notes.strip()[:900]
             meta["what_i_ran"] = "mkwt.sh scratch worktree; git apply patch.diff; make -C src; make -C src check (25/25); demo built %s and run: exit %d with the change, exit %d without; /verif/check %s --src <patched tree>" % (
